@@ -195,3 +195,101 @@ class ArrayBinopSpec(FunctionSpec):
         if getattr(obj, "region", "") == "quantity" and what[1] in LAZY_SLOTS:
             return True
         return FunctionSpec.allowed_write(self, I, ctx, obj, what)
+
+
+# ------------------------------------------------------------------------------------------------
+from .fixedarray import getvalue_cases_fa
+
+
+@register
+class ArrayGetValuesSpec(FunctionSpec):
+    """Array.GetAbstractValue(unit) / GetValues / values: no unit or the own unit returns the stored
+    container itself; another unit returns a new container of the same kind whose element j is
+    conv(own unit -> unit)(element j) - for flat lists, tuples and ndarrays of unbounded length and for
+    sequences of tuples (here: 1-2 tuples of 2 numbers, shape-bounded)."""
+
+    fq = AR + ".GetAbstractValue"
+    props = ("C02", "C10", "C13")
+    callees = BASE_CALLEES
+    probe = "array_getvalues"
+
+    def variants(self, tier):
+        out = []
+        for c in ("list", "tuple", "ndarray", "list-of-tuples", "tuple-of-tuples"):
+            for u in ("none", "unit"):
+                out.append((c, u))
+        return out
+
+    def setup(self, I, variant):
+        c, uk = variant
+        db, R = std_db(I)
+        P = I.P
+        q = simple_quantity(I, R, db, z3.Const("c", NameS), z3.Const("u", NameS))
+        if c in LONG:
+            vals = symseq.fresh_seq(P, LONG[c], base="vals")
+        else:
+            rows = [STuple([SNum(z3.Real("v%d%d" % (i, j)), "float") for j in range(2)]) for i in range(2)]
+            vals = SRef(P.alloc(HList(rows, region="param"))) if c == "list-of-tuples" else STuple(rows)
+        a = array_obj(I, db, q, vals)
+        u = SNone if uk == "none" else nm("unit")
+        if u is not SNone:
+            R.touch(u.name)
+        return {"f": I.getattr(a, "GetAbstractValue"), "args": [u], "R": R, "st": R.snapshot(), "self": a, "q": q, "vals": vals, "unit": u, "kind": c, "snap": dict(a.o.fields), "qsnap": quantity_snapshot(q)}
+
+    def cases(self, I, ctx):
+        R, st, q, vals, u, kind = ctx["R"], ctx["st"], ctx["q"], ctx["vals"], ctx["unit"], ctx["kind"]
+
+        def same_container(I, res):
+            if isinstance(vals, symseq.SymSeq):
+                return z3.BoolVal(isinstance(res, symseq.SymSeq) and res.token == vals.token)
+            if isinstance(vals, SRef):
+                return z3.BoolVal(isinstance(res, SRef) and res.o is vals.o)
+            return z3.BoolVal(res is vals)
+
+        if u is SNone:
+            return [ret("stored-values", T, check=same_container)]
+        out = []
+        for n_, g_, k_, x_ in getvalue_cases_fa(R, st, q, u.name):
+            if k_ == "raise":
+                out.append(rai("unit:" + n_, g_, x_, props=("C05",)))
+                continue
+            if n_ == "own-unit":
+                out.append(ret("own-unit", g_, check=same_container))
+                continue
+
+            def chk(I, res, x_=x_):
+                if isinstance(vals, symseq.SymSeq):
+                    if not (isinstance(res, symseq.SymSeq) and res.kind == vals.kind and res.token != vals.token):
+                        return F
+                    j = z3.Int("j!gv")
+                    return z3.And(res.n == vals.n, z3.Implies(z3.And(j >= 0, j < vals.n), S(res.elems, j) == x_(S(vals.elems, j))))
+                rows0 = vals.o.items if isinstance(vals, SRef) else vals.items
+                rows1 = res.o.items if (isinstance(res, SRef) and isinstance(res.o, HList)) else (res.items if isinstance(res, STuple) else None)
+                if rows1 is None or len(rows1) != len(rows0) or (isinstance(res, SRef)) != (isinstance(vals, SRef)):
+                    return F
+                if isinstance(res, SRef) and res.o is vals.o:
+                    return F
+                conj = []
+                for r0, r1 in zip(rows0, rows1):
+                    if not (isinstance(r1, STuple) and len(r1.items) == len(r0.items)):
+                        return F
+                    for e0, e1 in zip(r0.items, r1.items):
+                        if not isinstance(e1, SNum):
+                            return F
+                        conj.append(e1.real() == x_(e0.real()))
+                return And(conj)
+
+            out.append(ret("converted:" + n_, g_, props=("C02", "C10"), check=chk))
+        return out
+
+    def extra_obligations(self, I, ctx, outcome):
+        return [
+            ("frame[receiver unchanged]", ("C13",), value_unchanged(I, ctx["self"], ctx["snap"])),
+            ("frame[quantity unchanged]", ("C07", "C13"), quantity_unchanged(I, ctx["q"], ctx["qsnap"])),
+            ("frame[registry unchanged]", ("C15",), not ctx["R"].writes),
+        ]
+
+    def allowed_write(self, I, ctx, obj, what):
+        if getattr(obj, "region", "") == "quantity" and what[1] in LAZY_SLOTS:
+            return True
+        return FunctionSpec.allowed_write(self, I, ctx, obj, what)
